@@ -10,7 +10,7 @@ from ..spaces import shard_iter
 from .c20 import C, P, Vv, call, sub
 
 ID = "C10"
-BUDGET = {"quick": 100, "thorough": 300}
+BUDGET = {"quick": 240, "thorough": 300}
 
 CONST_FLAGS = [True, False, 0, 1, "", "a", [], [0], None]
 
